@@ -119,7 +119,8 @@ func main() {
 	loadDur := time.Since(loadStart)
 	exit := 0
 	for _, id := range ids {
-		if runOne(props[id], p, loadErr, loadDur, *tier, *verif, *noEv, *jsonOut, seed, len(ids) > 1) {
+		// the debugging pseudo-properties (DBG, SENT, ACQ) never write evidence
+		if runOne(props[id], p, loadErr, loadDur, *tier, *verif, *noEv || !strings.HasPrefix(id, "C"), *jsonOut, seed, len(ids) > 1) {
 			exit = 1
 		}
 	}
